@@ -312,7 +312,15 @@ func c17ScenarioGated(name string, max int, kinds []string, stopEarly bool, gate
 			if w == nil {
 				return "setup-failed", []vScnBad{{"setup-failed", "scenario set-up did not complete"}}
 			}
-			bad := w.bad
+			var bad []vScnBad
+			for _, b := range w.bad {
+				// a read deadline or the idle reaper fired early (a deviation the explorer injects):
+				// the server may then legitimately close a fresh connection before reading from it
+				if b.sig == "listed-client-refused-although-no-connection-is-open" && c17EarlyTimer(res) {
+					continue
+				}
+				bad = append(bad, b)
+			}
 			for _, p := range res.Panics {
 				bad = append(bad, vScnBad{"panic", p})
 			}
